@@ -532,6 +532,22 @@ def template(pos, labels, req, ack, yields, cuts=(), caller=None, gap=0):
     return {"cfg": cfg(ack, yields), "pos": pos, "labels": list(labels), "steps": steps}
 
 
+def two_writes(labels, asg, req1, req2, ack, yields, caller1):
+    """W1 .. W2 .. R with the frames `labels` placed into the phases `asg` (0 before W1, 1 while W1 waits, 2 after W1 has
+    ended, 3 while W2 waits, 4 while the read waits); frames of phases 0-2 are built for req1, the others for req2"""
+    by = {k: [] for k in range(5)}
+    for l, k in zip(labels, asg):
+        by[k].append(l)
+
+    def F(k, req):
+        return [["F", frames_of(by[k], req), []]] if by[k] else []
+    T = ack
+    steps = (F(0, req1) + [["A", 3], ["W", req1.hex(), caller1], ["A", 7]] + F(1, req1) + [["A", T + 20]] + F(2, req1)
+             + [["A", 5], ["W", req2.hex(), None], ["A", 7]] + F(3, req2) + [["A", T + 20], ["R", 40], ["A", 5]] + F(4, req2)
+             + [["A", 50]] + reads(2))
+    return {"cfg": cfg(ack, yields), "pos": "two-writes", "labels": list(labels), "steps": steps}
+
+
 def fix_ties(plan):
     """nudge advances so that no timer expires at exactly the arrival time of bytes"""
     for _ in range(6):
@@ -702,6 +718,41 @@ def gen_plans(ctx):
                         plans.append(("ack-timeout-grid", template(pos, labels, REQ_LONG if n3 % 2 else REQ_SHORT, ack, n3 % 2 if "alive" in labels else 0, caller=caller)))
     ctx.exhaustive_parts.append(f"ack timeouts {ACKS} ms x {{early, 3 ms before, 5 ms after the deadline}} x caller timeout {{none, shorter, longer}} "
                                 f"x all sequences of length <= 2 over {{ack, ackE, dT, e40, alive}} ({n3} plans)")
+    # (3b) whole executions with several writes one after the other: every sequence of <= 2 frames over the core alphabet
+    # in every non-decreasing placement into the five phases of  W1 .. W2 .. R  (before W1, while W1 waits, after W1
+    # ended, while W2 waits, while the read waits); the second request equal to / different from the first (a late ack
+    # of the first echoes the same / other bytes); W1 with and without a caller timeout shorter than the ack timeout
+    n3b = 0
+    for n in range(0, 3):
+        for labels in itertools.product(CORE, repeat=n):
+            for asg in itertools.combinations_with_replacement(range(5), n):
+                for req2 in (REQ_SHORT, REQ_LONG):
+                    for short_caller in (False, True):
+                        ack, y, _ = rot()
+                        n3b += 1
+                        plans.append(("two-writes-exhaustive",
+                                      two_writes(labels, asg, REQ_SHORT, req2, ack, y if "alive" in labels else 0,
+                                                 ack // 2 + 1 if short_caller else None)))
+    ctx.exhaustive_parts.append(f"two writes one after the other and a read: all sequences of length <= 2 over the core alphabet x every "
+                                f"non-decreasing placement into the 5 phases (before W1, while W1 waits, after W1 ended, while W2 waits, "
+                                f"while the read waits) x second request same / different x W1 with / without a short caller timeout "
+                                f"({n3b} plans)")
+    # (3c) an ack that arrives just before / just after the deadline of the first write (ack timeout or the caller's shorter
+    # timeout), then the next write: after the ack timeout the connection is closed and the late ack must not serve anything;
+    # after the caller's timeout it stays queued and is what the next write sees first
+    for ack in ACKS:
+        for caller in (None, ack // 2 + 1):
+            dl = ack if caller is None else caller
+            for delta in (-3, 5, 40):
+                for req2 in (REQ_SHORT, REQ_LONG):
+                    for pre in ((), ("dT",), ("alive",), ("dO", "dT")):
+                        for y in (0, 1):
+                            a1 = frames_of(list(pre) + ["ack"], REQ_SHORT)
+                            a2 = frames_of(["ack", "dT"], req2)
+                            steps = [["W", REQ_SHORT.hex(), caller], ["A", dl + delta], ["F", a1, []], ["A", 9],
+                                     ["W", req2.hex(), None], ["A", 7], ["F", a2, []], ["A", ack + 20]] + reads(3)
+                            plans.append(("late-ack-then-write", {"cfg": cfg(ack, y), "pos": "late-ack", "labels": list(pre) + ["ack", "ack", "dT"],
+                                                                  "steps": steps}))
     # (4) seeded: full alphabet, longer sequences, frames spread over several positions, multi-splits
     LMAX = _pk(ctx, 4, 6, 6)
     for _ in range(_pk(ctx, 2500, 30000, 12000)):
